@@ -168,3 +168,35 @@ class Opaque(Val):
 
     def __repr__(self):
         return "Opaque<%s>" % self.desc
+
+
+def famify(v):
+    """View of a list built by an explicit `for ...: xs.append(e)` loop (empty start, one append per iteration, no pop) as the
+    indexed family [e(i) for i in range(lo, hi)] a comprehension would have produced; other values are returned unchanged."""
+    if isinstance(v, ListV) and v.kind == "series" and getattr(v, "closed", False) and not v.init and len(v.per_iter) == 1 and not v.popped:
+        return ListV("fam", idx=v.k, lo=v.lo, hi=v.lo + v.n, elem=v.per_iter[0])
+    return v
+
+
+class FrameV(Val):
+    """A pandas DataFrame: either built from a mapping (columns known) or read from a file (columns are symbolic)."""
+
+    def __init__(self, source, name, columns=None):
+        self.source = source      # 'built' | 'read'
+        self.name = name
+        self.columns = columns if columns is not None else {}
+        self.scalar = set()       # columns assigned from a scalar (broadcast)
+        self.order = None
+
+    def __repr__(self):
+        return "Frame<%s %s %s>" % (self.source, self.name, sorted(self.columns))
+
+
+class JsonV(Val):
+    """The object returned by json.load: a mapping whose values are symbolic."""
+
+    def __init__(self, name):
+        self.name = name
+
+    def __repr__(self):
+        return "Json<%s>" % self.name
